@@ -191,6 +191,7 @@ def run_env():
     e["UBSAN_OPTIONS"] = "print_stacktrace=1:halt_on_error=1:exitcode=66"
     e["TSAN_OPTIONS"] = "halt_on_error=1:exitcode=66:second_deadlock_stack=1"
     e.pop("RC_PARAMS", None)
+    e["VERIF_CRASH_DIR"] = REPLAYS   # crash dumps of replayed cases never land next to committed files
     return e
 
 
